@@ -184,6 +184,9 @@ fn lit(s: &str) -> String {
 /// body (a frame reset separates it from `run`); 2 = each call inside a function that mutates
 /// the outer command
 fn script(program: &str, ops: &[Op], placement: u8) -> String {
+    if placement == 7 {
+        return script_indexed_in_capturing_function(program, ops);
+    }
     let mut s = format!("make c get command({})\nc.arg(\"dump\")\n", lit(program));
     for (k, op) in ops.iter().enumerate() {
         match placement {
@@ -246,6 +249,35 @@ fn script(program: &str, ops: &[Op], placement: u8) -> String {
         _ => "c",
     };
     s.push_str(&format!("{runner}.stdout_capture()\nmake r get {runner}.run()\nshout(r.exit_code())\nshout(r.stdout())\n"));
+    s
+}
+
+/// placement 7: the command is an element of a global list, every builder call goes through
+/// `cs[1].<call>` inside a function that captures the list, and that function is called from
+/// one holding its own list of the same name (which must stay untouched)
+fn script_indexed_in_capturing_function(program: &str, ops: &[Op]) -> String {
+    let mut s = format!("make cs get [command(\"/nonexistent-a\"), command({})]\ncs[1].arg(\"dump\")\ndo cfg() start\n", lit(program));
+    for op in ops {
+        s.push_str(&match op {
+            Op::Arg(a) => format!("cs[1].arg({})\n", lit(a)),
+            Op::ArgNum(n) => format!("cs[1].arg({n})\n"),
+            Op::Env(k, v) => format!("cs[1].env({}, {})\n", lit(k), lit(v)),
+            Op::Cwd(p) => format!("cs[1].cwd({})\n", lit(p)),
+            Op::StdinText(t) => format!("cs[1].stdin_text({})\n", lit(t)),
+            Op::StdinNull => "cs[1].stdin_null()\n".to_string(),
+            Op::StdinInherit => "cs[1].stdin_inherit()\n".to_string(),
+            Op::Timeout(t) => {
+                if let Some(neg) = t.strip_prefix('-') {
+                    format!("cs[1].timeout_ms(minus {neg})\n")
+                } else {
+                    format!("cs[1].timeout_ms({t})\n")
+                }
+            }
+        });
+    }
+    s.push_str("cs[1].stdout_capture()\nend\n");
+    s.push_str("do caller() start\nmake cs get [command(\"/nonexistent-b\"), command(\"/nonexistent-c\")]\ncfg()\nif to say (cs.len() na 99) start shout(\"never\") end\nend\ncaller()\n");
+    s.push_str("make r get cs[1].run()\nshout(r.exit_code())\nshout(r.stdout())\n");
     s
 }
 
@@ -317,7 +349,7 @@ fn check_state(ctx: &mut Ctx, d: &Dirs, program: &str, ops: &[Op], caps: Process
     for op in ops {
         m.apply(op);
     }
-    for placement in 0..7u8 {
+    for placement in 0..8u8 {
         if (1..3).contains(&placement) && ops.is_empty() {
             continue;
         }
@@ -329,7 +361,8 @@ fn check_state(ctx: &mut Ctx, d: &Dirs, program: &str, ops: &[Op], caps: Process
             .map_err(|(c, mut j)| {
                 j["placement"] = json!(["straight-line", "each call in a loop body", "each call in a function", "a copy is configured further, the original runs",
                     "the original is configured further, the copy runs", "a parameter copy is configured further, the original runs",
-                    "one array element is configured further, the other runs"][placement as usize]);
+                    "one array element is configured further, the other runs",
+                    "indexed receiver inside a function that captures the list, called from a function holding a same-named list"][placement as usize]);
                 (c, j)
             })?;
     }
